@@ -6,7 +6,7 @@ from . import coretypes as ct
 from . import array_folds as af
 from . import quantity_stack as qs
 
-EXPLANATION = '(R1) every comparison/logical dunder of Array evaluated with _binary_op stubbed, as a TRUTH SET over the element-wise relation of the operands {lt, eq, gt, unordered} (resp. boolean pairs): it must equal the truth set of the numpy function the Python data model prescribes (so ~(a > b) is not accepted for <=: it differs on NaN), strict, operands in order; (R2) _binary_op (strict) over operand kinds x unit relations, Array.to, Array.__init__ (shared with C02); (R3) boolean results are dimensionless over the dtype model. (R4) end to end: a [m] <op> b [cm] compares the physical quantities; a python int reaches numpy as an int; (R5) the one pint registry: cgs, no context enabled, defined symbols parsed as written (shared with C08); (R6) operands reach numpy as their buffers, a 0-d Array not as a python scalar. (R7) a conversion repeated after the buffer changed reflects the change; defined unit symbols do not shadow SI-prefixed units.'
+EXPLANATION = '(R1) every comparison/logical dunder of Array evaluated with _binary_op stubbed, as a TRUTH SET over the element-wise relation of the operands {lt, eq, gt, unordered} (resp. boolean pairs): it must equal the truth set of the numpy function the Python data model prescribes (so ~(a > b) is not accepted for <=: it differs on NaN), strict, operands in order; (R2) _binary_op (strict) over operand kinds x unit relations, Array.to, Array.__init__ (shared with C02); (R3) boolean results are dimensionless over the dtype model. (R4) end to end: a [m] <op> b [cm] compares the physical quantities; a python int reaches numpy as an int; (R5) the one pint registry: cgs, no context enabled, defined symbols parsed as written (shared with C08); (R6) operands reach numpy as their buffers, a 0-d Array not as a python scalar. (R7) a conversion repeated after the buffer changed reflects the change; defined unit symbols do not shadow SI-prefixed units. (R8) histories comparison; mutator; the same comparison again (in-place operators, buffer edits, unit re-assignment; python 0 against a dimensional Array raises; x == x looks at the values).'
 NOT_DECIDED = "numpy's comparison of the converted numbers; floating-point rounding of the conversion"
 TRUSTED = ('CPython ast', 'IEEE/numpy comparison semantics encoded in the truth sets', 'S4 operator table', 'the interpreter sa/models.py (ModelEval) and its library models')
 
